@@ -168,6 +168,30 @@ let cmd_initheap t =
       | _ -> let ds = next_mat t n cols in init_from_neighbor_graph g0 inds ds) in
   out_graph g
 
+(* divfwd npts nrows k eps prob inf rng[3] inds[nrows*k] ds[nrows*k] dm[npts*npts] *)
+let cmd_divfwd t =
+  let npts = next_int t in let nrows = next_int t in let k = next_int t in
+  let eps = next_z t in let prob = next_z t in let inf = next_z t in
+  let rng = next_list t 3 in
+  let inds = next_mat t nrows k in let ds = next_mat t nrows k in
+  let dm = next_dm t npts in
+  let ((oi, od), rng') = diversify dm (nat_of_int npts) tau_rand eps prob inf inds ds rng in
+  out_mat oi; out_sep (); out_mat od; out_sep (); out_list rng'
+
+(* divcsr npts use_l eps prob nrows [m cur_i[m] cur_d[m] order[m]]*nrows rng[3] dm *)
+let cmd_divcsr t =
+  let npts = next_int t in let use_l = next_bool t in
+  let eps = next_z t in let prob = next_z t in
+  let nrows = next_int t in
+  let rows = List.init nrows (fun _ -> let m = next_int t in
+    let ci = next_list t m in let cd = next_list t m in let o = next_list t m in (ci, cd, o)) in
+  let rng = ref (next_list t 3) in
+  let dm = next_dm t npts in
+  List.iter (fun (ci, cd, o) ->
+    let (res, rng') = diversify_csr_row dm (nat_of_int npts) tau_rand eps prob use_l ci cd o !rng in
+    rng := rng'; out_list res; out_str ";") rows;
+  out_sep (); out_list !rng
+
 (*DISPATCH-BEGIN*)
 let dispatch : (string * (toks -> unit)) list = [
   ("heapseq", cmd_heapseq);
@@ -180,6 +204,8 @@ let dispatch : (string * (toks -> unit)) list = [
   ("ggu", cmd_ggu);
   ("nnd", cmd_nnd);
   ("initheap", cmd_initheap);
+  ("divfwd", cmd_divfwd);
+  ("divcsr", cmd_divcsr);
 ]
 (*DISPATCH-END*)
 
